@@ -285,6 +285,19 @@ def random_script(rng, level, rounds, conf=None, pacer=None, fb=None, loss_waits
                      fb or rng.choice(FBS), steps, base=rng.choice([0, 65500, 12345]))
 
 
+def close_mid_digest_script(rng, conf, pacer, fb):
+    """Close while the estimator's pipeline goroutines are still digesting a report: WriteRTCP hands the acknowledgements
+    over and returns, the goroutines work through several hundred of them (an arrival group, hence a delay update, every
+    few packets) - and Close is called at once.  Close must come back (it waits for the pipeline), and afterwards the
+    closed error, no callback, no pacer update."""
+    steps = []
+    for _ in range(3):
+        steps += [{"a": "send", "n": 10, "gap": 6000, "size": 1000}, {"a": "fb", "pat": "inc", "loss": 0}]
+    steps += [{"a": "send", "n": rng.choice([300, 600]), "gap": rng.choice([1000, 5500, 6000]), "size": rng.choice([100, 1000])},
+              {"a": "fb", "pat": rng.choice(["inc", "inc", "slow", "dec"]), "loss": 0}, {"a": "close"}]
+    return mk_script("bwe", conf, pacer, fb, steps, base=rng.choice([0, 65000]))
+
+
 def paced_script(rng, conf, pacer, fb, rounds):
     """rounds separated by 205 ms of wall clock, so that the loss-based side may move once per round (its increase and
     decrease steps are rate limited to one per 200 ms) and the published value changes often"""
@@ -743,6 +756,10 @@ def run(ctx):
     cs = combos(rng, default_share=False)
     rs += [paced_script(rng, cs[i % len(cs)][0], cs[i % len(cs)][1], cs[i % len(cs)][2], 5 if quick else 12)
            for i in range(32 if quick else 200)]
+    for pc in ("noop", "rec", "leaky"):
+        for fbk in FBS:
+            for _ in range(2 if quick else 10):
+                rs.append(close_mid_digest_script(rng, rng.choice([0, 1]), pc, fbk))
     # a loopback transport: every packet is acknowledged from inside the pacer's own Write (feedback re-enters the estimator
     # on the pacer goroutine while the script keeps sending and feeding)
     for pc in ("leaky", "default", "noop"):
